@@ -238,7 +238,8 @@ def write_replay(pid, base, index, scenario, violation, out, minimised_from=None
         "replay_cmd": "bin/check %s --replay %s" % (pid, path),
     }
     with open(path, "w") as f:
-        json.dump(doc, f, indent=1, sort_keys=True, default=str)
+        # no sort_keys: dictionaries such as the namespaces keep their insertion order, which sheXer's output follows
+        json.dump(doc, f, indent=1, default=str)
     return path
 
 
